@@ -188,6 +188,8 @@ def hist_ops(nfiles, with_remodel):
     ops += [("backup", "default_back"), ("backup", None), ("backup", "")]
     # the same request from a manager object that was created before the backup existed (another tool instance)
     ops += [("stale-backup", "default_back")]
+    # a name that only resolves to the existing backup
+    ops += [("backup", "x/../default_back")]
     if with_remodel:
         # remodel is run on all tasks: run_remodel's task filter keys on BIDS 'task-<name>' entities while
         # BackupManager.get_task keys on 'task_<name>', so a task-filtered remodel has no common file naming (observation)
@@ -230,7 +232,12 @@ def run_history(rec, bm_mod, cli, root, selection, hist):
             elif op[0] in ("backup", "stale-backup"):
                 present = [os.path.join(root, r) for r in sorted(model)]
                 mgr = stale if op[0] == "stale-backup" else bm_mod.BackupManager(root)
-                made = mgr.create_backup(present, backup_name=op[1])
+                try:
+                    made = mgr.create_backup(present, backup_name=op[1])
+                except Exception as e:
+                    if type(e).__name__ != "HedFileError":
+                        raise
+                    made = False            # refused with the library's own error: also a refusal
                 if made:
                     rec.violation("C18:history:backup:existing-backup-name-not-refused", name=repr(op[1]), **where)
                     return
